@@ -138,7 +138,7 @@ def rdata_for(rng, typ, base, pool):
         return lambda m: m.raw(bytes([crit]) + cstr(tag) + val)
     if typ == T_URI:
         v = [rng.choice([0, 1, 10, 65535, rng.randrange(65536)]) for _ in range(2)]
-        t = rng.choice([b"https://example.org/", b"ftp://" + rnd_str(rng, 30), rnd_str(rng, 50), b"x"])
+        t = rng.choice([b"https://example.org/", b"ftp://" + rnd_str(rng, 30), b"u" + rnd_str(rng, 50), b"x", rnd_str(rng, 3)])
         return lambda m: m.raw(struct.pack(">HH", *v) + t)
     if typ == T_SOA:
         a, b = nm(), nm()
@@ -213,7 +213,7 @@ def gen_valid(rng, tier, target=None):
         elif shape == "mixed" and r < 0.75:
             typ = rng.choice([T_A, T_AAAA, T_CNAME, T_NS, T_PTR, T_MX, T_SRV, T_NAPTR, T_CAA, T_URI, T_SOA, T_TXT, T_HINFO, 99])
         elif shape == "otherclass" and r < 0.6:
-            cls = rng.choice([C_CH, C_HS, 254, 2])
+            cls = rng.choice([C_CH, C_HS, 254, C_CH, C_HS, 254, 2])
         elif shape == "foreign" and r < 0.6:
             own = rnd_name(rng)
         elif shape == "dups" and last is not None and r < 0.6:
